@@ -143,6 +143,24 @@ def t_sm():
                inv=[iff("n", "ge", 100, [op("fatalf", site=2)])])]
 
 
+def t_sm_case():
+    """a machine whose action keys differ only in capitalisation (methods Push / push of a wrapper, say): they are different actions"""
+    return [op("setvar", var="n", val="0"),
+            op("repeat", actions={
+                "Push": [draw(g("Bool"), "b"), op("incvar", var="n")],
+                "push": [draw(g("Byte"), "q")],
+                "PUSH": [iff("n", "ge", 3, [op("fatalf", site=1)]), draw(g("Bool"), "c")],
+                "pUSH": [draw(IntRange(0, 9), "r"), op("skip")]})]
+
+
+def t_custom_cleanup_rejected():
+    """a Custom attempt registers a cleanup that reports a leak (non-fatally) and is then rejected: the failure is that attempt's, and stays in the recording"""
+    return [draw(g("Int8"), "p"),
+            draw(g("Custom", elem=g("Int8"), body=[draw(IntRange(0, 9), "a", "a"), op("cleanup", body=[iff("a", "le", 1, [op("errorf", text="leak")])]),
+                                                   iff("a", "le", 3, [op("skip")])], fresh=True), "c"),
+            draw(g("SliceOfN", elem=g("Byte"), minLen=0, maxLen=3), "s")]
+
+
 def t_custom():
     return [draw(g("Custom", elem=g("Int16"), body=[draw(IntRange(0, 5), "a", "a"), iff("a", "le", 1, [op("skip")]),
                                                       op("cleanup", body=[op("ctx")])]), "c", "c"),
@@ -239,7 +257,7 @@ TEMPLATES = {
     "distinct": t_distinct, "map": t_map, "string": t_string, "filter": t_filter, "sampled": t_sampled,
     "multisite": t_multisite, "errorf_then_panic": t_errorf_then_panic, "nonfatal": t_nonfatal,
     "rterr_index": lambda: t_rterr("index"), "rterr_nilmap": lambda: t_rterr("nilmap"), "rterr_div": lambda: t_rterr("div"),
-    "sm": t_sm, "custom": t_custom, "panic_struct": lambda: t_threshold("Int16", 99, "panic"),
+    "sm": t_sm, "sm_case": t_sm_case, "custom_cleanup_rejected": t_custom_cleanup_rejected, "custom": t_custom, "panic_struct": lambda: t_threshold("Int16", 99, "panic"),
 }
 
 
@@ -261,7 +279,7 @@ def c01(tier, seed):
     out = []
     # rejection-based generators with minimization cut at once: the reported case is the pruned original,
     # which must replay (forced stops, duplicate keys, over-long strings, skipped actions)
-    for tn in ("distinct", "map", "string", "sm", "custom", "filter", "makemap", "regexp_retry", "sm2", "custom_hard", "custom_fatal", "filter_panics", "sm_hard"):
+    for tn in ("distinct", "map", "string", "sm", "sm_case", "custom", "filter", "makemap", "regexp_retry", "sm2", "custom_hard", "custom_fatal", "filter_panics", "sm_hard"):
         for sd in seeds(rng, (14 if tn != "custom_hard" else 70) if tier == "quick" else 150):
             out.append(scenario("c01-pruned-%s-%d-%d" % (tn, sd, len(out)), {"body": TEMPLATES[tn]()},
                                 {"checks": 100, "seed": sd, "nofailfile": "true", "shrinktime": "0s"}, tag={"template": tn, "shrink": "0s"}))
@@ -698,7 +716,8 @@ def c05(tier, seed):
     out = []
     n = 12 if tier == "quick" else 300
     tmpl = ["multisite", "errorf_then_panic", "threshold", "distinct", "map", "filter", "sm", "string", "custom", "sampled", "nonfatal",
-            "makemap", "custom_empty", "regexp_retry", "sm2", "cleanup_skip_errorf", "custom_hard", "custom_fatal", "filter_panics", "cleanup_fatal", "datamsg", "sm_hard"]
+            "makemap", "custom_empty", "regexp_retry", "sm2", "cleanup_skip_errorf", "custom_hard", "custom_fatal", "filter_panics", "cleanup_fatal", "datamsg", "sm_hard",
+            "sm_case", "custom_cleanup_rejected"]
     for i in range(n):
         for tn in tmpl:
             if tier == "quick" and i >= 4 and tn not in ("multisite", "errorf_then_panic", "distinct", "makemap", "custom_empty", "custom_hard", "cleanup_fatal", "datamsg"):
